@@ -10,7 +10,9 @@ import json
 import os
 import subprocess
 import sys
+import threading
 import time
+from concurrent.futures import ThreadPoolExecutor
 
 HERE = os.path.dirname(os.path.dirname(os.path.abspath(__file__)))
 SEEDED = os.path.join(HERE, 'seeded')
@@ -25,9 +27,11 @@ def main():
     names = sorted(d for d in os.listdir(SEEDED) if os.path.isdir(os.path.join(SEEDED, d)))
     res_path = os.path.join(SEEDED, 'RESULTS.json')
     results = json.load(open(res_path)) if os.path.exists(res_path) else {}
-    for name in names:
+    lock = threading.Lock()
+
+    def one(name):
         if want and name not in want and name.split('-')[0] not in want:
-            continue
+            return
         d = os.path.join(SEEDED, name)
         meta = json.load(open(os.path.join(d, 'meta.json')))
         pid = meta['property']
@@ -36,13 +40,13 @@ def main():
         r = sh(f'git -C /repo worktree add --detach {wt} HEAD')
         if r.returncode != 0:
             print(name, 'worktree failed', r.stderr[-300:])
-            continue
+            return
         try:
             r = sh(f'git -C {wt} apply {os.path.join(d, "patch.diff")}')
             if r.returncode != 0:
                 results[name] = {'property': pid, 'applied': False, 'error': r.stderr[-500:]}
                 print(f'{name:28s} {pid}  PATCH DOES NOT APPLY')
-                continue
+                return
             t0 = time.time()
             env = dict(os.environ, VERIF_REPO=wt, VERIF_NO_CACHE='0')
             r = subprocess.run(['timeout', '3000', './check', pid, '--tier', 'quick'], cwd=HERE, capture_output=True, text=True, env=env)
@@ -62,7 +66,11 @@ def main():
             print(f'{name:28s} {pid}  {verdict:8s} {kinds}  {round(time.time() - t0)}s')
         finally:
             sh(f'git -C /repo worktree remove --force {wt}')
-        json.dump(results, open(res_path, 'w'), indent=1)
+        with lock:
+            json.dump(results, open(res_path, 'w'), indent=1)
+
+    with ThreadPoolExecutor(int(os.environ.get('SEEDED_JOBS', '5'))) as ex:
+        list(ex.map(one, names))
 
 
 if __name__ == '__main__':
